@@ -73,6 +73,10 @@ struct ChurnCase {
     cancels: Vec<(u8, u32)>,
     sched: Option<u64>,
     seed: u32,
+    /// a cancellation drops ALL device handler tasks at once (e.g. the application's select over
+    /// them is dropped), not just one of them
+    #[serde(default)]
+    cancel_all: bool,
 }
 
 fn kind() -> impl Strategy<Value = Kind> {
@@ -103,12 +107,14 @@ fn churn_strategy() -> impl Strategy<Value = ChurnCase> {
         prop::collection::vec((0u8..28, 0u32..3_000), 0..3),
         prop_oneof![1 => Just(None), 3 => any::<u64>().prop_map(Some)],
         any::<u32>(),
+        any::<bool>(),
     )
-        .prop_map(|(attempts, cancels, sched, seed)| ChurnCase {
+        .prop_map(|(attempts, cancels, sched, seed, cancel_all)| ChurnCase {
             attempts,
             cancels,
             sched,
             seed,
+            cancel_all,
         })
 }
 
@@ -409,14 +415,17 @@ fn check_churn(case: &ChurnCase) -> Case {
             }
             running.retain(|i, _| !done.borrow().contains_key(i));
             while next_cancel < cancels.len() && cancels[next_cancel].0 <= now {
-                // cancel the handler that is next in line, then give the device a fresh one
-                let h = next_cancel % handlers.len();
-                ex.kill(handlers[h]);
-                let r = &responder;
-                handlers[h] = ex.spawn(&format!("dev.h{h}'"), async move {
-                    let _ = r.handle(h).await;
-                });
-                labels.push("handler-cancelled".into());
+                // cancel the handler that is next in line (or all of them), then give the
+                // device fresh ones
+                let which: Vec<usize> = if case.cancel_all { (0..handlers.len()).collect() } else { vec![next_cancel % handlers.len()] };
+                for h in which {
+                    ex.kill(handlers[h]);
+                    let r = &responder;
+                    handlers[h] = ex.spawn(&format!("dev.h{h}'"), async move {
+                        let _ = r.handle(h).await;
+                    });
+                }
+                labels.push(if case.cancel_all { "all-handlers-cancelled" } else { "handler-cancelled" }.into());
                 next_cancel += 1;
             }
             while next_start < starts.len() && starts[next_start].0 <= now {
@@ -540,38 +549,47 @@ fn check_churn(case: &ChurnCase) -> Case {
                 .filter(|s| s.exchanges.iter().flatten().count() == 0 && !s.reserved)
                 .count();
             let full = sessions(&device).len() >= 16;
-            for attempt in 0..3 {
-                let (m, c, pr) = (&probe, &cp, &probe_result);
-                let use_pase = attempt % 2 == 0;
-                let fab = *fab_idxs.last().unwrap();
-                let t = ex.spawn("probe", async move {
-                    let r = async {
-                        let exch = Exchange::initiate_plaintext(m, c, node_addr(0)).await?;
-                        if use_pase {
-                            PaseInitiator::perform(exch, c, 20202021).await
-                        } else {
-                            CaseInitiator::perform(exch, c, fab, DEV_NODE).await
+            // every kind of handshake has to get through: PASE (the single "handshake in
+            // progress" slot must have been released) and CASE, up to three tries each
+            let mut refused: Vec<&str> = Vec::new();
+            for (what, use_pase) in [("PASE", true), ("CASE", false)] {
+                let mut ok = false;
+                for _attempt in 0..3 {
+                    let (m, c, pr) = (&probe, &cp, &probe_result);
+                    let fab = *fab_idxs.last().unwrap();
+                    let t = ex.spawn("probe", async move {
+                        let r = async {
+                            let exch = Exchange::initiate_plaintext(m, c, node_addr(0)).await?;
+                            if use_pase {
+                                PaseInitiator::perform(exch, c, 20202021).await
+                            } else {
+                                CaseInitiator::perform(exch, c, fab, DEV_NODE).await
+                            }
                         }
+                        .await;
+                        pr.borrow_mut().push(r.is_ok());
+                    });
+                    let dl = clock::now() + 40 * SEC;
+                    let n0 = probe_result.borrow().len();
+                    ex.run_until(dl, || probe_result.borrow().len() > n0);
+                    ex.kill(t);
+                    if probe_result.borrow().len() > n0 && probe_result.borrow().last() == Some(&true) {
+                        ok = true;
+                        break;
                     }
-                    .await;
-                    pr.borrow_mut().push(r.is_ok());
-                });
-                let dl = clock::now() + 40 * SEC;
-                let n0 = probe_result.borrow().len();
-                ex.run_until(dl, || probe_result.borrow().len() > n0);
-                ex.kill(t);
-                if probe_result.borrow().last() == Some(&true) {
-                    break;
+                    // Busy: wait as told (the stack says 500 ms) and retry
+                    ex.run_for(2 * SEC);
                 }
-                // Busy: wait as told (the stack says 500 ms) and retry
-                ex.run_for(2 * SEC);
+                if !ok {
+                    refused.push(what);
+                }
             }
-            let ok = probe_result.borrow().iter().any(|b| *b);
-            if !ok && (idle > 0 || !full) {
+            if !refused.is_empty() && (idle > 0 || !full) {
                 verdict = Some(Case::fail(
-                    "probe:legitimate-handshake-refused",
+                    if refused.len() == 2 { "probe:legitimate-handshake-refused".to_string() } else { format!("probe:legitimate-{}-handshake-refused", refused[0]) },
                     format!(
-                        "after the churn settled, three handshakes (PASE, CASE, PASE) from a fresh node all failed although {idle} session(s) were idle (table full: {full}); table: {:?}",
+                        "after the churn settled, three {:?} handshakes each from a fresh node all failed although {idle} session(s) were idle (table full: {full}); table: {:?}",
+                        refused,
                         table_report(&device)
                     ),
                 ));
